@@ -17,6 +17,20 @@ PYX_FILES = (
 )
 
 
+def _canon_tree(tree):
+    """Front-end canonicalisation of equivalent spellings (see sa/match.py):
+    comparison direction, method/function form of reductions, np.newaxis,
+    reshape(-1, 1), if-not/else branch order.  Positions are preserved."""
+    if os.environ.get('VERIF_NO_CANON') == '1':
+        return tree
+    from .match import canon_inplace
+    attrs = {k: getattr(tree, k) for k in ('cy_fused', 'cy_externs') if hasattr(tree, k)}
+    tree = canon_inplace(tree)
+    for k, v in attrs.items():
+        setattr(tree, k, v)
+    return tree
+
+
 class AnalysisIncomplete(Exception):
     """An anchor the rule must find has vanished / cannot be analysed.
 
@@ -119,9 +133,9 @@ class Repo:
                 return
             if rel.endswith('.pyx'):
                 from . import pyxfront
-                rtree = pyxfront.parse_pyx(ref_path, rel)
+                rtree = _canon_tree(pyxfront.parse_pyx(ref_path, rel))
             else:
-                rtree = ast.parse(rsrc)
+                rtree = _canon_tree(ast.parse(rsrc))
             rmod = Module(rel, rsrc, rtree, cur.kind)
             applied = rename.normalise_module(cur, rmod)
             if applied:
@@ -135,6 +149,7 @@ class Repo:
             with open(path, encoding='utf-8') as f:
                 src = f.read()
             tree = ast.parse(src, filename=rel)
+            tree = _canon_tree(tree)
         except (OSError, SyntaxError, UnicodeDecodeError) as e:
             self.errors.append((rel, repr(e)))
             return
@@ -154,7 +169,7 @@ class Repo:
             try:
                 with open(path, encoding='utf-8') as f:
                     src = f.read()
-                tree = pyxfront.parse_pyx(path, rel)
+                tree = _canon_tree(pyxfront.parse_pyx(path, rel))
             except Exception as e:   # Cython compile errors etc.
                 self.errors.append((rel, repr(e)))
                 continue
